@@ -191,7 +191,7 @@ func (r *returnedBytes) add(c *mon.Ctx, got []byte, what, sig string, o *model.O
 // ---- C09 ----------------------------------------------------------------------------
 
 func runC09(c *mon.Ctx) {
-	c.Rule("(a) valid claims-sets of both profiles, of two registered extension profiles and of a registered extension that brings its own software-component type (stock component + one field, no hand-written codecs; built with NewClaims + setters, the field must survive the round trip) (all optional-claim subsets, hash sizes 32/48/64, 1-4 components, flag or list, with/without explicit P1 profile), built directly / through setters / by decoding: encode -> decode must give the same dynamic type and identical results for Validate and every getter, and encoding again must give identical bytes; returned encodings are kept and re-checked / re-decoded after six further encodes; (b) decodable-but-invalid and open-encoding tokens from the C04 generator, and tokens of the registered extension profile with the profile key repeated under another registered name, mandatory claims set to null, wire edits and extension-claim variants: decode -> encode either fails or yields bytes that decode to the same observation. distinct_nontrivial = distinct (profile, route, optional-subset, nonce size, component count, value-class) signatures")
+	c.Rule("(a) valid claims-sets of both profiles, of two registered extension profiles and of a registered extension that brings its own software-component type (stock component + one field, no hand-written codecs; built with NewClaims + setters, the field must survive the round trip) and of registered extensions with unusual struct layouts (P2Claims reached through an embedded struct of unexported type; a mixin struct embedded before P2Claims) (all optional-claim subsets, hash sizes 32/48/64, 1-4 components, flag or list, with/without explicit P1 profile), built directly / through setters / by decoding: encode -> decode must give the same dynamic type and identical results for Validate and every getter, and encoding again must give identical bytes; returned encodings are kept and re-checked / re-decoded after six further encodes; (b) decodable-but-invalid and open-encoding tokens from the C04 generator, and tokens of the registered extension profile with the profile key repeated under another registered name, mandatory claims set to null, wire edits and extension-claim variants: decode -> encode either fails or yields bytes that decode to the same observation. distinct_nontrivial = distinct (profile, route, optional-subset, nonce size, component count, value-class) signatures")
 	if err := extprof.Register(extprof.ExtP2Name, extprof.ExtP1Name); err != nil {
 		c.Violation("harness/register", err.Error(), nil)
 		return
@@ -258,6 +258,7 @@ func runC09(c *mon.Ctx) {
 	}
 	// (a'') the registered extension with its own component type
 	ownerExtRoundTrips(c, g, "C09", "cbor", c.N(400, 20000))
+	layoutExtRoundTrips(c, g, "C09", "cbor", c.N(400, 20000))
 	// (a') valid sets with many software components
 	counts := []int{15, 16, 17, 23, 24, 25, 63, 64, 65, 255, 256, 257, 1000}
 	if !c.Quick() {
@@ -772,7 +773,7 @@ func jsonProblems(a *model.Claims, doc []byte, extra map[string]bool) []string {
 }
 
 func runC12(c *mon.Ctx) {
-	c.Rule("valid claims-sets of both profiles, a registered profile-2 extension and a registered extension that brings its own software-component type (stock component + one field, codecs left to the JSON library; the field must survive the round trip) (text claims drawn from non-ASCII / control / quote / HTML / U+2028 strings, negative client ids, P1 with and without explicit profile claim), built directly / by setters / by decoding: (1) EncodeClaimsToJSON -> DecodeClaimsFromJSON (dispatching) gives identical Validate + getter results and type; (2) CBOR -> claims -> JSON -> claims -> CBOR reproduces the CBOR bytes; (3) every returned JSON document is also kept by the monitor and re-checked / re-decoded after six further encodes (a caller encodes several tokens before sending them); (4) the JSON document, parsed generically, has exactly the documented member names of the claims that are set, standard base64 for byte strings, no member for an absent optional claim (incl. null), no duplicate members; also through Evidence.MarshalJSON. distinct_nontrivial = distinct (profile, route, optional-subset, nonce size, component count, text-class) signatures")
+	c.Rule("valid claims-sets of both profiles, a registered profile-2 extension and a registered extension that brings its own software-component type (stock component + one field, codecs left to the JSON library; the field must survive the round trip) and of registered extensions with unusual struct layouts (P2Claims reached through an embedded struct of unexported type; a mixin struct embedded before P2Claims) ; sets with 15..2500 (thorough: ..20000) software components, i.e. JSON documents up to several MB (text claims drawn from non-ASCII / control / quote / HTML / U+2028 strings, negative client ids, P1 with and without explicit profile claim), built directly / by setters / by decoding: (1) EncodeClaimsToJSON -> DecodeClaimsFromJSON (dispatching) gives identical Validate + getter results and type; (2) CBOR -> claims -> JSON -> claims -> CBOR reproduces the CBOR bytes; (3) every returned JSON document is also kept by the monitor and re-checked / re-decoded after six further encodes (a caller encodes several tokens before sending them); (4) the JSON document, parsed generically, has exactly the documented member names of the claims that are set, standard base64 for byte strings, no member for an absent optional claim (incl. null), no duplicate members; also through Evidence.MarshalJSON. distinct_nontrivial = distinct (profile, route, optional-subset, nonce size, component count, text-class) signatures")
 	if err := extprof.Register(extprof.ExtP2Name); err != nil {
 		c.Violation("harness/register", err.Error(), nil)
 		return
@@ -780,6 +781,68 @@ func runC12(c *mon.Ctx) {
 	g := model.NewGen(c.Seed*5003 + int64(c.Shard))
 	held12 := &returnedBytes{prop: "C12"}
 	ownerExtRoundTrips(c, g, "C12", "json", c.N(400, 20000))
+	layoutExtRoundTrips(c, g, "C12", "json", c.N(400, 20000))
+	// valid sets with many software components (large documents)
+	{
+		counts := []int{15, 64, 255, 256, 400, 1000, 2500}
+		if !c.Quick() {
+			counts = append(counts, 4096, 20000)
+		}
+		for ci, nc := range counts {
+			for p := 1; p <= 2; p++ {
+				if !c.Mine(ci*2 + p) {
+					continue
+				}
+				a := g.Valid(p)
+				a.HasComps, a.NoMeas, a.Comps = true, nil, nil
+				for j := 0; j < nc; j++ {
+					cp := g.ValidComp()
+					if j%3 == 0 {
+						cp.MVal, cp.Signer = model.BP(g.Bytes(64)), model.BP(g.Bytes(64))
+					}
+					a.Comps = append(a.Comps, cp)
+				}
+				sig := fmt.Sprintf("component-count|P%d|%d", p, nc)
+				c.Sig(sig)
+				if pn, pv, fr := mon.Guard(func() {
+					c.Eval()
+					x, err := obs.Build(a)
+					if err != nil {
+						c.Violation("C12/many-components-unbuildable/"+a.Canon, err.Error(), nil)
+						return
+					}
+					cb1, err := psatoken.ValidateAndEncodeClaimsToCBOR(x)
+					if err != nil {
+						c.Violation(fmt.Sprintf("C12/valid-encode-failed/%s/components=%d", a.Canon, nc), "CBOR encoding of a valid set failed: "+err.Error(), map[string]any{"sig": sig})
+						return
+					}
+					doc, err := psatoken.ValidateAndEncodeClaimsToJSON(x)
+					if err != nil {
+						c.Violation(fmt.Sprintf("C12/valid-encode-failed/%s/components=%d", a.Canon, nc), "JSON encoding of a valid set failed: "+err.Error(), map[string]any{"sig": sig})
+						return
+					}
+					y, err := psatoken.DecodeAndValidateClaimsFromJSON(doc)
+					if err != nil {
+						c.Violation(fmt.Sprintf("C12/own-json-rejected/%s/components=%d", a.Canon, nc), fmt.Sprintf("the dispatching decoder refuses the library's own JSON encoding (%d bytes) of a valid set with %d components: %v", len(doc), nc, err), map[string]any{"sig": sig, "json_bytes": len(doc), "cbor_bytes": len(cb1)})
+						return
+					}
+					gx, gy := obs.Observe(x), obs.Observe(y)
+					if d := model.ObsDiff(&gx, &gy); d != "" {
+						c.Violation(fmt.Sprintf("C12/observation-changed/%s/components=%d", a.Canon, nc), "JSON round trip of a set with many components changed it: "+trunc(d, 300), map[string]any{"sig": sig})
+						return
+					}
+					cb2, err := psatoken.ValidateAndEncodeClaimsToCBOR(y)
+					if err != nil || !bytes.Equal(cb1, cb2) {
+						c.Violation(fmt.Sprintf("C12/cross-format-bytes-differ/%s/components=%d", a.Canon, nc), fmt.Sprintf("CBOR -> claims -> JSON -> claims -> CBOR does not reproduce the bytes (%v)", err), map[string]any{"sig": sig})
+						return
+					}
+					c.Count("many-component-json-roundtrips")
+				}); pn {
+					c.Violation("C12/panic/"+mon.PanicKey(fr), "panic during JSON round trip of a set with many components", map[string]any{"panic": pv, "frame": fr, "sig": sig})
+				}
+			}
+		}
+	}
 	n := c.N(150000, 4000000)
 	for i := 0; i < n; i++ {
 		vc, ok := genValidCase(c, g, false)
@@ -878,6 +941,7 @@ func runC12(c *mon.Ctx) {
 		}
 	}
 	c.Floor("returned-bytes-rechecked", 1000)
+	c.Floor("many-component-json-roundtrips", 10)
 	c.Floor("json-documents:P1", 500)
 	c.Floor("json-documents:P2", 500)
 	c.Floor("json-documents:P1-no-profile-claim", 200)
@@ -1010,4 +1074,110 @@ func strp(p *string) string {
 		return "<nil>"
 	}
 	return fmt.Sprintf("%q", *p)
+}
+
+// layoutExtRoundTrips: valid claims-sets of registered extension profiles with
+// unusual struct layouts - P2Claims reached through an embedded struct of
+// UNEXPORTED type (three levels), and a mixin struct embedded BEFORE P2Claims -
+// built with NewClaims + setters, extension claims set, encoded, decoded through
+// the dispatching decoder, compared (implementation, getters, extension claims),
+// encoded again (byte-identical). The emitted map must contain the profile
+// claim and the extension claims (independent reader / generic JSON parse).
+func layoutExtRoundTrips(c *mon.Ctx, g *model.Gen, prop, format string, n int) {
+	if err := extprof.Register(extprof.ExtNestedName, extprof.MixinName); err != nil {
+		c.Violation("harness/register", err.Error(), nil)
+		return
+	}
+	enc, dec := psatoken.ValidateAndEncodeClaimsToCBOR, psatoken.DecodeAndValidateClaimsFromCBOR
+	if format == "json" {
+		enc, dec = psatoken.ValidateAndEncodeClaimsToJSON, psatoken.DecodeAndValidateClaimsFromJSON
+	}
+	extOf := func(x psatoken.IClaims) []string {
+		var ps []*string
+		switch t := x.(type) {
+		case *extprof.ExtNestedClaims:
+			v, p := t.NestedFields()
+			ps = []*string{*v, *p}
+		case *extprof.MixinClaims:
+			ps = []*string{t.Mixin}
+		}
+		var out []string
+		for _, p := range ps {
+			out = append(out, strp(p))
+		}
+		return out
+	}
+	for i := 0; i < n; i++ {
+		a := g.Valid(2)
+		layout, name := "nested-unexported-base", extprof.ExtNestedName
+		if i%2 == 1 {
+			layout, name = "mixin-first", extprof.MixinName
+		}
+		a.Canon, a.Profile = name, model.SP(name)
+		sig := fmt.Sprintf("layout-ext|%s|%s|comps=%d", layout, format, len(a.Comps))
+		pn, pv, fr := mon.Guard(func() {
+			c.Eval()
+			x, err := obs.SetterBuild(a)
+			if err != nil {
+				c.Violation(prop+"/layout-ext/setters-refused/"+layout, "NewClaims / setters refused a valid value: "+err.Error(), map[string]any{"sig": sig})
+				return
+			}
+			switch t := x.(type) {
+			case *extprof.ExtNestedClaims:
+				v, p := t.NestedFields()
+				if g.R.Intn(4) != 0 {
+					*v = model.SP(g.NonEmptyText())
+				}
+				if g.R.Intn(4) != 0 {
+					*p = model.SP(g.NonEmptyText())
+				}
+			case *extprof.MixinClaims:
+				if g.R.Intn(4) != 0 {
+					t.Mixin = model.SP(g.NonEmptyText())
+				}
+			default:
+				c.Violation(prop+"/layout-ext/other-implementation/"+layout, fmt.Sprintf("NewClaims(%q) returned %T", name, x), nil)
+				return
+			}
+			want, wantExt := a.Expect(), extOf(x)
+			if got := obs.Observe(x); model.ObsDiff(&want, &got) != "" {
+				c.Violation(prop+"/layout-ext/built-object-differs/"+layout, "object built with setters differs from the model: "+trunc(model.ObsDiff(&want, &got), 300), map[string]any{"sig": sig})
+				return
+			}
+			e1, err := enc(x)
+			if err != nil {
+				c.Violation(prop+"/layout-ext/valid-encode-failed/"+layout+"/"+format, "encoding a valid set failed: "+err.Error(), map[string]any{"sig": sig})
+				return
+			}
+			y, err := dec(e1)
+			if err != nil {
+				c.Violation(prop+"/layout-ext/valid-decode-failed/"+layout+"/"+format, "the library cannot decode its own encoding: "+err.Error(), map[string]any{"sig": sig, "encoding": mon.Hex(e1)})
+				return
+			}
+			if fmt.Sprintf("%T", y) != fmt.Sprintf("%T", x) {
+				c.Violation(prop+"/layout-ext/other-implementation/"+layout+"/"+format, fmt.Sprintf("%T decoded into %T", x, y), map[string]any{"sig": sig, "encoding": mon.Hex(e1)})
+				return
+			}
+			if got := obs.Observe(y); model.ObsDiff(&want, &got) != "" {
+				c.Violation(prop+"/layout-ext/observation-changed/"+layout+"/"+format, "round trip changed the claims: "+trunc(model.ObsDiff(&want, &got), 300), map[string]any{"sig": sig, "encoding": mon.Hex(e1)})
+				return
+			}
+			if gotExt := extOf(y); fmt.Sprint(gotExt) != fmt.Sprint(wantExt) {
+				c.Violation(prop+"/layout-ext/extension-claims-changed/"+layout+"/"+format, fmt.Sprintf("the extension's own claims changed in the round trip: want %v, got %v", wantExt, gotExt), map[string]any{"sig": sig, "encoding": mon.Hex(e1)})
+				return
+			}
+			e2, err := enc(y)
+			if err != nil || !bytes.Equal(e1, e2) {
+				c.Violation(prop+"/layout-ext/bytes-unstable/"+layout+"/"+format, fmt.Sprintf("second encoding differs (%v)", err), map[string]any{"sig": sig, "first": mon.Hex(e1), "second": mon.Hex(e2)})
+				return
+			}
+			c.Count("layout-extension-roundtrips:" + layout)
+		})
+		if pn {
+			c.Violation(prop+"/panic/"+mon.PanicKey(fr), "panic during round trip of a layout extension", map[string]any{"panic": pv, "frame": fr, "sig": sig})
+		}
+		c.Sig(sig)
+	}
+	c.Floor("layout-extension-roundtrips:nested-unexported-base", 50)
+	c.Floor("layout-extension-roundtrips:mixin-first", 50)
 }
